@@ -347,7 +347,7 @@ char *simk_getcwd(char *buf, size_t size) {
   Proc *p = k->curproc();
   std::string s = k->vfs_path(p->cwd);
   if (!buf || size == 0) { errno = EINVAL; k->logrec(K_getcwd, (int64_t) size, 0, 0, -1, EINVAL); return nullptr; }
-  if (s.size() + 1 > size) { errno = ERANGE; k->logrec(K_getcwd, (int64_t) size, (int64_t) s.size(), 0, -1, ERANGE); return nullptr; }
+  if (s.size() + 1 > size) { k->n_getcwd_erange++; errno = ERANGE; k->logrec(K_getcwd, (int64_t) size, (int64_t) s.size(), 0, -1, ERANGE); return nullptr; }
   memcpy(buf, s.c_str(), s.size() + 1);
   k->logrec(K_getcwd, (int64_t) size, (int64_t) s.size(), 0, 0, 0);
   return buf;
